@@ -370,8 +370,13 @@ pub const GENERIC_CONTENT: &str = "content a;b\nline2 abc;def\n  xy{fn}\n";
 /// original lines; original line stays >= 1.
 pub fn concretize_map(t: &str, am: &AbsMap, ascii: bool) -> MapSpec {
   let nsrc = am.nsrc as usize;
-  let sources: Vec<String> =
+  let mut sources: Vec<String> =
     (0..nsrc).map(|i| format!("s{}.js", (am.src_base as usize + i) % 5)).collect();
+  // wild maps: now and then the same file is listed twice
+  if am.wild && am.dup_names && nsrc >= 2 {
+    let first = sources[0].clone();
+    *sources.last_mut().unwrap() = first;
+  }
   let names: Vec<String> = (0..am.nnames as usize)
     .map(|i| if am.dup_names { "nm0".to_string() } else { format!("nm{i}") })
     .collect();
@@ -600,6 +605,11 @@ pub fn sms_inner(cfg: GenCfg) -> BoxedStrategy<Spec> {
       // the outer map is written relative to no root for the inner source to be found by name
       map.root = None;
       map.sources[w] = name.clone();
+      // wild: now and then the outer map lists the inner source's name twice
+      if cfg.wild && which % 5 == 2 && map.sources.len() >= 2 {
+        let other = (w + 1) % map.sources.len();
+        map.sources[other] = name.clone();
+      }
       // outer original positions into the inner source: mostly inside `orig`
       let (opositions, oend) = positions(&orig);
       let mut oall = opositions.clone();
@@ -681,8 +691,12 @@ pub fn normalize(mut s: Spec, cfg: GenCfg) -> Spec {
   if !cfg.cached_under_replace {
     s = strip_cached_under_replace(s, false);
   }
-  let mut seen: Vec<(String, Option<String>)> = vec![];
-  fix_names(&mut s, &mut seen);
+  // the file-name precondition belongs to the attribution oracles; wild trees (text, totality and
+  // memory-safety oracles only) keep whatever names they have, duplicates with different contents included
+  if !cfg.wild {
+    let mut seen: Vec<(String, Option<String>)> = vec![];
+    fix_names(&mut s, &mut seen);
+  }
   s
 }
 
